@@ -1,9 +1,12 @@
 /-
   Engine `tlsframe` (C19): concurrent packet bursts over the real TLS gossip transport.
     burst <senders> <packets each> <payload size> -> <received intact> <corrupt> <missing> <write errors>
+    restart <n> -> <received> <first index received> <last index received> <write errors>
+       the peer restarted on its address, then n packets one after the other
 -/
 import Driver.Util
 import AM.Model.Frame
+import AM.Model.ConnPool
 
 namespace Driver.TlsFrame
 open Driver AM.Frame
@@ -27,6 +30,20 @@ def step (σ : St) (op obs : List String) : St × List Msg :=
     (σ, expectEq "burst.received" (toString total) got ++ expectEq "burst.errors" "0" errs
         ++ (if modelOk then [] else [.diff "model" "frames parse back" "not"]) ++ pf
         ++ [.tag (if g > 1 then "burst:concurrent" else "burst:single")])
+  | ["restart", n], [got, first, last, errs] =>
+    let n := toNat! n
+    -- the model: the pooled connection (generation 0) is dead for the restarted peer (it accepts generations ≥ 1):
+    -- one send fails and marks it, the next one dials (AM.ConnPool.recovers_after_one_failure), all later ones arrive
+    let p0 : AM.ConnPool.Pool := { cache := some ⟨0, true⟩, next := 1 }
+    let modelDelivered := ((List.range n).foldl (fun (acc : AM.ConnPool.Pool × Nat) _ =>
+      let r := AM.ConnPool.send acc.1 1
+      (r.1, if r.2 then acc.2 + 1 else acc.2)) (p0, 0)).2
+    -- TCP may accept one more write before it reports the broken connection: the implementation may lose up to
+    -- two packets more than the model; what must hold is that the tail of the sequence arrives
+    let pf := if toInt! last + 1 = (n : Int) then [] else
+      [Msg.propfail "recovers_after_one_failure" "dead-connection-reused"
+        s!"after the peer restarted, {n} packets were written one after the other ({errs} write errors): {got} arrived, the last one that arrived is #{last}; the model delivers {modelDelivered} of {n}, all but the first"]
+    (σ, pf ++ (if toInt! first ≤ 3 then [] else [.diff "restart.first-delivered" "≤ 3" first]) ++ [.tag "restart"])
   | _, _ => (σ, [.diff "parse" "?" (" ".intercalate op)])
 
 def engine : Engine St where
